@@ -101,3 +101,169 @@ Example C07_example :
     ops_ok k ops /\ c07_run deflate inflate None k 2 ops = true /\
     (k = KBase -> nth 2 (snd (run deflate (new_coll k 2, mkWriter [] [] false) ops)) BReset = BAdd RTypes).
 Proof. exact collector_example_c07. Qed.
+
+(* ====================================================================== *)
+(* C07, wrappers: the sampling collector (collector_sample.go) and the writer
+   collector (writer.go), models in Model/Wrappers.v, proofs in
+   Proofs/WrappersProofs.v.  These theorems justify how the correspondence
+   harness maps the two entry points onto the collector model (hist.go,
+   hist_run.ml): interval 0 = the wrapped collector itself; an interval that
+   never elapses = only the first Add reaches the wrapped collector, the later
+   ones answer nil; NewWriterCollector = the streaming dynamic collector. *)
+From FV.Model Require Import Wrappers.
+From FV.Proofs Require Import WrappersProofs.
+
+Section C07Wrappers.
+Variable deflate : bytes -> bytes.
+Variable inflate : bytes -> option bytes.
+Hypothesis inflate_deflate : forall p, inflate (deflate p) = Some p.
+
+(* Histories are arbitrary lists of operations on ANY collector state st (any
+   kind, any writer fault schedule).  The clock is the list of its successive
+   readings, one per Add (of a readable or an unreadable input);
+   [adds ops <= length clock] only says that the list is long enough.
+
+   (a) minimum interval <= 0 under a clock that never goes back (readings >= the
+   one stored by the previous Add; last = None, the zero time, is before all):
+   the wrapper answers exactly like the wrapped collector and leaves it in
+   exactly the same state. *)
+Theorem C07_sampling_zero_is_identity : forall interval clock last st ops,
+  interval <= 0 -> clock_mono last clock -> (adds ops <= length clock)%nat ->
+  let r := sampling_run deflate interval clock (mkSstate st last) ops in
+  (ss_st (fst r), snd r) = run deflate st ops.
+Proof. exact (sampling_zero_is_identity deflate). Qed.
+
+(* (b) the interval never elapses after the first Add (every later reading t has
+   t - t0 < interval): the wrapped collector and its writer end in the state of
+   the history [first_add_only ops] (= ops without every Add / unreadable Add
+   after the first one: [first_add_mask false ops] marks the operations kept),
+   the kept operations answer what that history answers, every removed Add
+   answers nil, and nothing else is answered. *)
+Theorem C07_sampling_long_first_only : forall interval clock st ops,
+  never_elapses interval clock -> (adds ops <= length clock)%nat ->
+  let r := sampling_run deflate interval clock (mkSstate st None) ops in
+  let kept := first_add_mask false ops in
+  let r' := run deflate st (first_add_only ops) in
+  ss_st (fst r) = fst r' /\
+  select kept (snd r) = snd r' /\
+  Forall (fun b => b = BAdd ROk) (select (map negb kept) (snd r)) /\
+  length (snd r) = length ops /\ length kept = length ops.
+Proof. exact (sampling_long_first_only deflate). Qed.
+
+(* (c) any interval, any clock, any starting state: the wrapped collector sees
+   the sub-history selected by [sampling_mask] — a function of the interval, the
+   clock and the positions of the Adds only —, which leaves out nothing but Adds;
+   those answer nil. *)
+Theorem C07_sampling_inner_history : forall interval clock s ops, (adds ops <= length clock)%nat ->
+  let r := sampling_run deflate interval clock s ops in
+  let kept := sampling_mask interval clock (ss_last s) ops in
+  let r' := run deflate (ss_st s) (select kept ops) in
+  ss_st (fst r) = fst r' /\
+  select kept (snd r) = snd r' /\
+  Forall (fun b => b = BAdd ROk) (select (map negb kept) (snd r)) /\
+  Forall2 (fun (m : bool) o => m = false -> is_add o = true) kept ops /\
+  length (snd r) = length ops /\ length kept = length ops.
+Proof. exact (sampling_inner_history deflate). Qed.
+
+(* ... and hence never invents a sample: after any history (hypotheses of C07_log)
+   under any interval and clock, what the writer and Resolve hold decodes to a
+   sub-sequence, in order, of the (stripped) documents of the Adds that were
+   passed on, which are a sub-sequence of the documents offered.
+   (It need not be a sub-sequence of what the unwrapped collector would hold after
+   the same history: skipping an Add can make room for a later one, see the last
+   lines of C07_sampling_example.) *)
+Theorem C07_sampling_never_invents : forall interval clock k n ops,
+  compressing k = true -> 1 <= n < 2 ^ 31 -> ops_ok k ops -> (adds ops <= length clock)%nat ->
+  let r := sampling_run deflate interval clock (mkSstate (new_coll k n, mkWriter [] [] false) None) ops in
+  let passed := select (sampling_mask interval clock None ops) ops in
+  exists l, c07_contents deflate inflate (ss_st (fst r)) = Some l /\
+    subseq l (map strip_doc (added_docs passed)) /\
+    subseq (added_docs passed) (added_docs ops).
+Proof. exact (sampling_never_invents deflate inflate inflate_deflate). Qed.
+
+(* (d) the writer collector is the streaming dynamic collector: for every history
+   of Write(readable document) / Write(unreadable bytes) / Close, every chunk size
+   n and every fault schedule fs of the writer, the collector behind it and the
+   writer (log, remaining faults) end exactly as collector kind sdyn does on the
+   translated history (Write d -> Add d, Close -> FlushCollector, unreadable Write
+   -> nothing), and the answers are those of that history with the refusal put
+   back at every unreadable Write. *)
+Theorem C07_writer_collector_is_sdyn : forall n fs ops,
+  let r := wc_run deflate (wc_new n fs) ops in
+  let r' := run deflate (new_coll KSDyn n, mkWriter [] fs false) (wc_translate ops) in
+  CSDyn (fst (fst r)) = fst (fst r') /\
+  snd (fst r) = snd (fst r') /\
+  snd r = wc_answers ops (snd r') /\
+  length (snd r) = length ops.
+Proof. exact (writer_collector_is_sdyn deflate). Qed.
+
+(* the same from any state of the collector and the writer *)
+Theorem C07_writer_collector_is_sdyn_from : forall c w ops,
+  let r := wc_run deflate (c, w) ops in
+  let r' := run deflate (CSDyn c, w) (wc_translate ops) in
+  CSDyn (fst (fst r)) = fst (fst r') /\
+  snd (fst r) = snd (fst r') /\
+  snd r = wc_answers ops (snd r') /\
+  length (snd r) = length ops.
+Proof. exact (writer_collector_is_sdyn_from deflate). Qed.
+
+(* an unreadable Add has no effect on the streaming dynamic collector either (only
+   the plain streaming collector flushes first), so reading an unreadable Write as
+   an unreadable Add would reach the same states *)
+Theorem C07_writer_bad_write_like_bad_add : forall c w,
+  step deflate (CSDyn c, w) OAddBad = ((CSDyn c, w), BAdd RCount).
+Proof. exact (sdyn_add_bad_no_effect deflate). Qed.
+
+End C07Wrappers.
+
+Print Assumptions C07_sampling_zero_is_identity.
+Print Assumptions C07_sampling_long_first_only.
+Print Assumptions C07_sampling_inner_history.
+Print Assumptions C07_sampling_never_invents.
+Print Assumptions C07_writer_collector_is_sdyn.
+Print Assumptions C07_writer_collector_is_sdyn_from.
+Print Assumptions C07_writer_bad_write_like_bad_add.
+
+(* non-vacuity, sampling: a streaming collector (n = 2) behind a one-hour wrapper
+   under the clock 100, 200, 300: the hypotheses of (a) and (b) hold; only the
+   first Add counts (Info reports one sample where the unwrapped collector, having
+   flushed at the unreadable Add, reports none); with interval 0 the answers are
+   the unwrapped collector's.  Last three lines: a base collector (n = 1) behind
+   an interval of 50 under the clock 0, 10, 60, 70 accepts the third Add, which
+   the unwrapped collector refuses as full. *)
+Example C07_sampling_example :
+  let deflate := (fun p : bytes => 1%N :: p) in
+  let d := (fun x => [([97]%N, VInt64 x); ([98]%N, VInt64 (x + 1))]) in
+  let ops := [OInfo; OAdd (d 1) 10; OAdd (d 2) 11; OAddBad; OInfo; OReset] in
+  let st0 := (new_coll KStream 2, mkWriter [] [] false) in
+  let clock := [100; 200; 300] in
+  clock_mono None clock /\ never_elapses 3600 clock /\ (adds ops <= length clock)%nat /\
+  first_add_only ops = [OInfo; OAdd (d 1) 10; OInfo; OReset] /\
+  snd (sampling_run deflate 3600 clock (mkSstate st0 None) ops) =
+    [BInfo 0 0; BAdd ROk; BAdd ROk; BAdd ROk; BInfo 2 1; BReset] /\
+  snd (run deflate st0 (first_add_only ops)) = [BInfo 0 0; BAdd ROk; BInfo 2 1; BReset] /\
+  snd (sampling_run deflate 0 clock (mkSstate st0 None) ops) = snd (run deflate st0 ops) /\
+  snd (run deflate st0 ops) = [BInfo 0 0; BAdd ROk; BAdd ROk; BAdd RCount; BInfo 0 0; BReset] /\
+  let ops2 := [OAdd (d 1) 10; OAdd (d 2) 11; OAdd (d 3) 12; OAdd (d 4) 13; OInfo] in
+  let st1 := (new_coll KBase 1, mkWriter [] [] false) in
+  sampling_mask 50 [0; 10; 60; 70] None ops2 = [true; false; true; false; true] /\
+  snd (sampling_run deflate 50 [0; 10; 60; 70] (mkSstate st1 None) ops2) = [BAdd ROk; BAdd ROk; BAdd ROk; BAdd ROk; BInfo 2 2] /\
+  snd (run deflate st1 ops2) = [BAdd ROk; BAdd ROk; BAdd RFull; BAdd RFull; BInfo 2 2].
+Proof. exact wrappers_example_sampling. Qed.
+
+(* non-vacuity, writer collector (n = 2, the writer's second Write fails): three
+   readable Writes and a refused one, the third Write flushes the full chunk, the
+   first Close fails with the writer, the second succeeds; two chunks are written *)
+Example C07_writer_example :
+  let deflate := (fun p : bytes => 1%N :: p) in
+  let d := (fun x => [([97]%N, VInt64 x); ([98]%N, VInt64 (x + 1))]) in
+  let wops := [WWrite (d 1) 10; WWriteBad; WWrite (d 2) 11; WWrite (d 3) 12; WClose; WClose] in
+  let fs := [FNone; FError] in
+  wc_translate wops = [OAdd (d 1) 10; OAdd (d 2) 11; OAdd (d 3) 12; OFlush; OFlush] /\
+  snd (wc_run deflate (wc_new 2 fs) wops) =
+    [WBWrite ROk; WBRefused; WBWrite ROk; WBWrite ROk; WBClose false; WBClose true] /\
+  snd (run deflate (new_coll KSDyn 2, mkWriter [] fs false) (wc_translate wops)) =
+    [BAdd ROk; BAdd ROk; BAdd ROk; BFlush false; BFlush true] /\
+  length (w_log (snd (fst (wc_run deflate (wc_new 2 fs) wops)))) = 2%nat /\
+  c_info (CSDyn (fst (fst (wc_run deflate (wc_new 2 fs) wops)))) = (0, 0).
+Proof. exact wrappers_example_writer. Qed.
